@@ -236,6 +236,8 @@ def build_entry(it, c, fnode, fr):
             fr.locs[name] = make_value(it, spec, name)
     for name, spec in c.ghost.items():
         fr.locs[name] = make_value(it, spec, name)
+    for name, fn in c.specfns.items():
+        fr.locs[name] = fn
     if c.setup:
         c.setup(it, fr)
     for r in c.requires:
